@@ -117,24 +117,33 @@ def _same_exception(rep, rule, key, outcomes):
 def run(ctx):
     rep, world = ctx.report, ctx.world
     rep.explanation = (
-        'errno decision tables of ensure_tree / delete_if_exists / '
-        'last_bytes extracted exhaustively over errno x isdir x failure and '
-        'compared with the table the property states; def-use of the '
-        'checksum loop (every chunk read reaches update() unmodified exactly '
-        'once, same digest object finalised); event order of last_bytes and '
-        'write_to_tempfile.  File-system behaviour itself is not decided.')
-    rep.rule('R20.1', 'errno handler table: swallow exactly EEXIST+isdir '
-             '(ensure_tree), ENOENT (delete_if_exists), EINVAL->seek(0) '
-             '(last_bytes); every other error propagates as the same object')
+        'ensure_tree / delete_if_exists on an abstract path whose kind '
+        '(missing, file, directory) before and after the failing call is '
+        'symbolic and whose failing call raises an OSError with symbolic '
+        'errno: the decision table is compared with the one the property '
+        'states.  last_bytes on an abstract positioned file (seek moves and '
+        'returns the position, tell reports it, read hands out the bytes '
+        'from it): what is compared is where the returned data starts and '
+        'the reported count, as linear forms in size and num, not the calls '
+        'that produced them.  compute_file_checksum with scripted reads; '
+        'write_to_tempfile on abstract os / tempfile effects with a failing '
+        'write.  File-system behaviour itself is not decided.')
+    rep.rule('R20.1', 'error table: swallow exactly "already exists and is '
+             'a directory" (ensure_tree), "does not exist" (delete_if_exists)'
+             ', EINVAL on the first seek -> start of the file (last_bytes); '
+             'every other error propagates as the same object')
     rep.rule('R20.2', 'checksum loop: every value produced by '
              'f.read(read_chunksize) reaches checksum.update unmodified '
              'exactly once, loop ends only on the empty sentinel, the digest '
              'object created by hashlib.new(algorithm) is the one finalised')
-    rep.rule('R20.3', 'last_bytes: seek(-num, SEEK_END) -> tell() -> '
-             'unbounded read(); result (data, unread)')
-    rep.rule('R20.4', 'write_to_tempfile: ensure_tree(path) before mkstemp '
-             'when a path is given; mkstemp is the file source; the whole '
-             'content is written; os.close(fd) on every path')
+    rep.rule('R20.3', 'last_bytes: the data returned is everything from '
+             'size - num (0 after EINVAL) to the end of the file, the second '
+             'element is that position, the file is closed on every path')
+    rep.rule('R20.4', 'write_to_tempfile: missing directories created before '
+             'mkstemp when a path is given; mkstemp(dir=path) is the file '
+             'source; the whole content reaches the descriptor; the '
+             'descriptor is closed exactly once on every path (os.close or a '
+             'file object wrapped around it)')
     _ensure_tree(ctx)
     _delete_if_exists(ctx)
     _last_bytes(ctx)
